@@ -203,6 +203,24 @@ def runPart (lens : List Nat) (p : Nat) (ix : Ix) : Except Err (List (Nat × Nat
 
 def total (lens : List Nat) : Nat := lens.foldl (· + ·) 0
 
+/-- integer-list head index, one part: the output slots owned by part `p` (those whose global index
+    `find_indexer` sends to `p`) paired with what the part returns for their local indices -/
+def listPart (lens : List Nat) (l : List Int) (p : Nat) : Except Err (List (Nat × Nat × Nat)) :=
+  let starts := partStarts lens
+  let inds := l.map (findIndexer starts)
+  let slots := (List.range l.length).filter fun j => inds.getD j 0 = Int.ofNat p
+  if slots.isEmpty then pure ([] : List (Nat × Nat × Nat))
+  else do
+    let locals := slots.map fun j => l.getD j 0 - ((starts.getD p 0 : Nat) : Int)
+    let r ← runPart lens p (.list locals)
+    if r.length = slots.length then pure (slots.zip r) else .error .value
+
+/-- the content of output slot `j` (a slot left uninitialised by `np.empty` is garbage in the real code) -/
+def pickSlot (all : List (Nat × Nat × Nat)) (j : Nat) : Except Err (Nat × Nat) :=
+  match all.find? (·.1 = j) with
+  | some (_, pr) => .ok pr
+  | none => .error .other
+
 /-- ConcatenatedLazyIndexer.__getitem__, head axis: scalar flag and list of (part, local). -/
 def concatHead (lens : List Nat) (ix : Ix) : Except Err (Bool × List (Nat × Nat)) :=
   let starts := partStarts lens
@@ -246,19 +264,9 @@ def concatHead (lens : List Nat) (ix : Ix) : Except Err (Bool × List (Nat × Na
     -- negative entries are rejected (TypeError) before anything is read
     if l.any (· < 0) then throw Err.type
     -- integer list: scatter by owning part; every output slot must be filled
-    let inds := l.map (findIndexer starts)
-    let filled ← (List.range nparts).mapM fun (p : Nat) => do
-      let slots := (List.range l.length).filter fun j => inds.getD j 0 = Int.ofNat p
-      if slots.isEmpty then pure ([] : List (Nat × Nat × Nat))
-      else do
-        let locals := slots.map fun j => l.getD j 0 - ((starts.getD p 0 : Nat) : Int)
-        let r ← runPart lens p (.list locals)
-        if r.length = slots.length then pure (slots.zip r) else .error .value
+    let filled ← (List.range nparts).mapM (listPart lens l)
     let all := filled.flatten
-    let out ← (List.range l.length).mapM fun j =>
-      match all.find? (·.1 = j) with
-      | some (_, pr) => .ok pr
-      | none => .error .other       -- slot left uninitialised: garbage in the real code
+    let out ← (List.range l.length).mapM (pickSlot all)
     pure (false, out)
 
 /-- spec for the concatenated head axis -/
